@@ -711,6 +711,12 @@ static int PolicyVerificationResult_create(KSI_PolicyVerificationResult **result
 		goto cleanup;
 	}
 
+	/* Make the object safe to release on any of the error paths below. */
+	tmp->ref = 1;
+	tmp->ruleResults = NULL;
+	tmp->policyResults = NULL;
+	tmp->finalResult.statusMessage = NULL;
+
 	res = KSI_RuleVerificationResultList_new(&tmp->ruleResults);
 	if (res != KSI_OK) {
 		goto cleanup;
@@ -726,7 +732,6 @@ static int PolicyVerificationResult_create(KSI_PolicyVerificationResult **result
 		goto cleanup;
 	}
 
-	tmp->ref = 1;
 	*result = tmp;
 	tmp = NULL;
 	res = KSI_OK;
